@@ -231,10 +231,10 @@ def generate(tier, seed):
         cases.append({"kind": "dep5-trunc", "off": off})
     for j in range(len(BROKEN_TOML)):
         cases.append({"kind": "toml-broken", "j": j})
-    nflip = 120 if tier == "quick" else 6000
+    nflip = 120 if tier == "quick" else 30000
     for k in range(nflip):
         cases.append({"kind": "flip", "k": k})
-    nfiles = 90 if tier == "quick" else 1800
+    nfiles = 90 if tier == "quick" else 6000
     for k in range(nfiles):
         cases.append({"kind": "files", "k": k})
     for k in range(12 if tier == "quick" else 200):
